@@ -608,6 +608,7 @@ ASMJIT_FAVOR_SPEED Error Assembler::_emit(InstId inst_id, const Operand_& o0, co
   // Handle failure and rare cases first.
   if (ASMJIT_UNLIKELY(Support::test(options, kRequiresSpecialHandling))) {
     if (ASMJIT_UNLIKELY(!_code)) {
+      reset_state();
       return report_error(make_error(Error::kNotInitialized));
     }
 
